@@ -98,6 +98,8 @@ pub enum CrashAllow {
         d: u32,
         lo: u32,
         hi: u32,
+        /// available slots once the new version is held (the charge / refund of the request applied)
+        charged: u32,
         new_blob: Vec<u8>,
         new_tsd: u32,
         new_sig: String,
@@ -611,7 +613,7 @@ impl Model {
                     }
                 }
             }
-            CrashAllow::Add { u, d, lo, hi, new_blob, new_tsd, new_sig, new_penalty } => {
+            CrashAllow::Add { u, d, lo, hi, charged, new_blob, new_tsd, new_sig, new_penalty } => {
                 let pk = self.user_pk(u);
                 let uuid = self.uuid(u, d);
                 let before = self.users.get(&u).map(|m| m.available).unwrap_or(0);
@@ -625,6 +627,15 @@ impl Model {
                             "crash_grants_slots_on_interrupted_shrinking_update",
                             format!(
                                 "{at}: crash inside add(user {u}, dispute {d}) (replacement by a smaller blob): the stored appointment is still the old one but available slots went from {before} to {} -- the crash granted slots",
+                                r.available
+                            ),
+                        ));
+                    } else if applied && r.available > charged {
+                        out.push(viol(
+                            "C03",
+                            "crash_grants_slots_appointment_stored_uncharged",
+                            format!(
+                                "{at}: crash inside add(user {u}, dispute {d}): the new appointment is stored but the user still has {} slots (must be {charged} once it is held) -- the crash granted slots",
                                 r.available
                             ),
                         ));
